@@ -26,6 +26,7 @@ pub struct Weights {
     pub cache: u32,
     pub crash: u32,
     pub queue: u32,
+    pub push: u32,
 }
 
 pub struct Gen {
@@ -50,7 +51,8 @@ pub struct Gen {
 pub fn family_cfg(family_name: &str, seed: u64, big: bool) -> Cfg {
     // "crash-subsector" is the crash family on a disk that also tears inside sectors.
     let subsector = family_name == "crash-subsector";
-    let family = if subsector { "crash" } else { family_name };
+    // "push-chaos" is the push family with transport faults.
+    let family = if subsector { "crash" } else if family_name == "push-chaos" { "push" } else { family_name };
     let mut r = Rng::derive(seed, "cfg");
     let (n_lo, n_hi) = match family {
         "facts" => (1, 2),
@@ -61,7 +63,7 @@ pub fn family_cfg(family_name: &str, seed: u64, big: bool) -> Cfg {
         _ => (2, 5),
     };
     let n_reps = r.range(n_lo, n_hi) as usize;
-    let faults = matches!(family, "net-chaos" | "dag-faults" | "crash");
+    let faults = matches!(family, "net-chaos" | "dag-faults" | "crash") || family_name == "push-chaos";
     let mut file_backed = vec![false; n_reps];
     if family == "crash" || family == "file" {
         for f in file_backed.iter_mut() {
@@ -116,7 +118,7 @@ pub fn family_cfg(family_name: &str, seed: u64, big: bool) -> Cfg {
 impl Gen {
     pub fn new(cfg: &Cfg) -> Self {
         let mut r = Rng::derive(cfg.seed, "knobs");
-        let mut w = Weights { act: 30, sync_open: 14, resp_poll: 26, deliver: 30, flush: 3, commit: 12, abandon: 1, craft: 0, hello: 3, sess: 0, cache: 1, crash: 0, queue: 0 };
+        let mut w = Weights { act: 30, sync_open: 14, resp_poll: 26, deliver: 30, flush: 3, commit: 12, abandon: 1, craft: 0, hello: 3, sess: 0, cache: 1, crash: 0, queue: 0, push: 0 };
         let mut poison_pct = 0;
         let mut finalize_pct = r.range(0, 6);
         let mut fail_pct = r.range(0, 10);
@@ -125,6 +127,20 @@ impl Gen {
         let mut max_cmds = r.range(1, 4);
         let family = if cfg.family == "crash-subsector" { "crash" } else { cfg.family.as_str() };
         match family {
+            "push" => {
+                w.push = 30;
+                w.act = 40;
+                w.sync_open = 6;
+                w.abandon = 2;
+                max_cmds = r.range(1, 6);
+            }
+            "push-chaos" => {
+                w.push = 40;
+                w.act = 30;
+                w.sync_open = 6;
+                fault_pct = r.range(20, 70);
+                corrupt_pct = r.range(40, 95);
+            }
             "adversarial" => {
                 w.craft = 30;
                 w.act = 15;
@@ -169,6 +185,7 @@ impl Gen {
                 w.cache = 25;
             }
             "net-chaos" => {
+                w.push = 6;
                 fault_pct = r.range(10, 50);
                 corrupt_pct = r.range(20, 90);
                 w.craft = 4;
@@ -358,6 +375,7 @@ impl Gen {
             if with_graph.is_empty() { 0 } else { w.cache },
             if file_reps.is_empty() { 0 } else { w.crash },
             w.queue,
+            if with_graph.is_empty() || live.len() < 2 { 0 } else { w.push },
         ];
         if weights.iter().all(|x| *x == 0) {
             return Step::Quiesce;
@@ -375,7 +393,7 @@ impl Gen {
                 let a = *self.sched.pick(&live);
                 let others: Vec<usize> = with_graph.iter().copied().filter(|b| *b != a).collect();
                 if others.is_empty() {
-                    return Step::Hello { a: 0, b: 0 };
+                    return Step::Hello { a: 0, b: 0, fault: None };
                 }
                 let b = *self.sched.pick(&others);
                 let mine: Vec<usize> = open.iter().filter(|(r, _)| *r == a).map(|(_, t)| *t).collect();
@@ -419,7 +437,27 @@ impl Gen {
                 if others.is_empty() {
                     return Step::Quiesce;
                 }
-                Step::Hello { a, b: *self.sched.pick(&others) }
+                // With transport faults on, the notification travels as a message.
+                let fault = if self.fault_pct > 0 { Some(self.net_fault(sim.sess.len())) } else { None };
+                Step::Hello { a, b: *self.sched.pick(&others), fault }
+            }
+            13 => {
+                let a = *self.sched.pick(&live);
+                let others: Vec<usize> = with_graph.iter().copied().filter(|b| *b != a).collect();
+                if others.is_empty() {
+                    return Step::Quiesce;
+                }
+                let b = *self.sched.pick(&others);
+                let fault = self.net_fault(sim.sess.len());
+                match self.sched.below(10) {
+                    0..=2 => Step::Subscribe { a, b, sid: self.sched.next_u64(), fault },
+                    3 => Step::Unsubscribe { a, b, fault },
+                    _ => {
+                        let buf = if self.net.below(100) < self.small_buf_pct.max(4) { Some(self.net.range(0, 400) as usize) } else { None };
+                        let mode = match self.sched.below(10) { 0 => 1, 1 => 2, _ => 0 };
+                        Step::Push { b, a, sid: self.sched.next_u64(), buf, fault, mode }
+                    }
+                }
             }
             9 => {
                 if sessions.is_empty() || self.sched.chance(1, 6) {
